@@ -120,7 +120,9 @@ class StatementInserter(ast.NodeTransformer, EmitterMixin):
             Union[ast.For, ast.While],
             fast.copy_ast(self.orig_to_copy_mapping[id(node)]),
         )
-        loop_node_copy.body, globals_and_nonlocals = strip_globals_and_nonlocals(
+        # keep loop_node_copy itself the same shape as the pristine loop (the guard-exempt mapping
+        # pairs the two by parallel traversal); only the statements we emit leave out the declarations
+        loop_copy_body, globals_and_nonlocals = strip_globals_and_nonlocals(
             loop_node_copy.body
         )
         if self.global_guards_enabled:
@@ -155,7 +157,7 @@ class StatementInserter(ast.NodeTransformer, EmitterMixin):
             if self.global_guards_enabled:
                 with self.expr_rewriter.guard_exempt_context(node, loop_node_copy):
                     orelse = [
-                        self.expr_rewriter.visit(node) for node in loop_node_copy.body
+                        self.expr_rewriter.visit(node) for node in loop_copy_body
                     ]
                 ret = [
                     fast.If(
@@ -191,7 +193,8 @@ class StatementInserter(ast.NodeTransformer, EmitterMixin):
             Union[ast.FunctionDef, ast.AsyncFunctionDef],
             fast.copy_ast(self.orig_to_copy_mapping[id(node)]),
         )
-        fundef_copy.body, globals_and_nonlocals = strip_globals_and_nonlocals(
+        # as for loops: fundef_copy keeps the shape of the pristine function definition
+        fundef_copy_body, globals_and_nonlocals = strip_globals_and_nonlocals(
             fundef_copy.body
         )
         if self.global_guards_enabled:
@@ -201,12 +204,12 @@ class StatementInserter(ast.NodeTransformer, EmitterMixin):
             function_guard = None
         docstring: List[ast.AST] = []
         if (
-            len(fundef_copy.body) > 0
-            and isinstance(fundef_copy.body[0], ast.Expr)
-            and isinstance(fundef_copy.body[0].value, StrConst)
+            len(fundef_copy_body) > 0
+            and isinstance(fundef_copy_body[0], ast.Expr)
+            and isinstance(fundef_copy_body[0].value, StrConst)
         ):
             orig_body.pop(0)
-            docstring = [fundef_copy.body.pop(0)]
+            docstring = [fundef_copy_body.pop(0)]
         if len(orig_body) == 0:
             return docstring
         with fast.location_of((docstring + [fundef_copy])[0]):
@@ -241,7 +244,7 @@ class StatementInserter(ast.NodeTransformer, EmitterMixin):
                             if isinstance(node, ast.expr)
                             else node
                         )
-                        for node in fundef_copy.body
+                        for node in fundef_copy_body
                     ]
                 ret = [
                     fast.If(
@@ -294,7 +297,7 @@ class StatementInserter(ast.NodeTransformer, EmitterMixin):
                                     ),
                                 )
                             ]
-                            + fundef_copy.body,
+                            + fundef_copy_body,
                         )
                     ],
                     orelse=[],
